@@ -44,6 +44,23 @@ def _tags(v):
     return [repr(v)]
 
 
+def norm(v):
+    """job values with every grouping level removed (how a combined / inherited split nests its values is the state
+    algebra's business, C02/C03; C17 is about the values being the same under every worker and schedule)"""
+    if isinstance(v, list) and len(v) == 3 and v[0] == "J" and isinstance(v[1], str):
+        return ["J", v[1], [norm(d) for d in v[2]]]
+    if isinstance(v, list):
+        out = []
+        for x in v:
+            n = norm(x)
+            if isinstance(x, list) and not (len(x) == 3 and x[0] == "J" and isinstance(x[1], str)):
+                out.extend(n)
+            else:
+                out.append(n)
+        return out
+    return v
+
+
 def out_tags(outputs, case):
     """per node: the tags of the jobs whose values make up the node's output"""
     return {nd["name"]: (None if not outputs or outputs.get(nd["name"]) is None else _tags(outputs[nd["name"]])) for nd in case["nodes"]}
@@ -83,7 +100,8 @@ def judge_workflows(ctx, graphs, n_sched, cf_procs):
     ans = ctx.driver("Sched", qs)
     for i, (r, o) in enumerate(zip(all_runs, obs)):
         g = graphs[owner[i]]
-        ref = {k: sched.canon(v) for k, v in sched.reference_outputs(g).items()}
+        ref = {k: norm(sched.canon(v)) for k, v in sched.reference_outputs(g).items()}
+        base = next((ob.get("outputs") for rr, ob, gi in zip(all_runs, obs, owner) if gi == owner[i] and rr.get("worker") == "debug"), None)
         conf = r.get("worker") or "verif"
         if conf == "cf":
             conf = f"cf{r['n_procs']}"
@@ -96,7 +114,10 @@ def judge_workflows(ctx, graphs, n_sched, cf_procs):
             ok_model = a.get("outcome") == "success"
             model = {"outcome": a.get("outcome") if "status" not in a or a.get("status") == "done" else "MODEL-" + str(a.get("status")),
                      "outputs": {n: [tag[c] for c in cks] for n, cks in zip(mc["names"], a["outputs"])} if ok_model else None}
-        spec_ok = o.get("outcome") == "ok" and o.get("outputs") == ref
+        # the property: the same outputs as under the debug worker (exactly), and the values the dataflow prescribes
+        got = o.get("outputs")
+        spec_ok = (o.get("outcome") == "ok" and got is not None and got == base
+                   and {k: norm(v) for k, v in got.items()} == ref)
         ctx.count("conf:" + conf)
         ctx.count(f"jobs={sched.njobs(g)}")
         rec = dict(r)
@@ -114,7 +135,7 @@ def correspondence(ctx):
     core.assert_repo_loaded()
     n_sched = ctx.pick(3, 6)
     cf = ctx.pick([2], [1, 2, 8])
-    graphs = [dict(c) for c in CORPUS] + [sched.gen_graph(ctx.rng) for _ in range(ctx.pick(3, 14))]
+    graphs = [dict(c) for c in CORPUS] + [sched.gen_graph(ctx.rng) for _ in range(ctx.pick(2, 14))]
     judge_workflows(ctx, graphs, n_sched, cf)
 
 
@@ -127,6 +148,7 @@ def replay(ctx, rec):
     c = rec["case"]
     g = {k: c[k] for k in ("nodes", "keep_state") if k in c}
     obs = sched.run_cases([c], ctx.scratch)[0]
-    ref = {k: sched.canon(v) for k, v in sched.reference_outputs(g).items()}
-    ctx.judge(c, {"outcome": obs.get("outcome"), "outputs": out_tags(obs.get("outputs"), g)}, None,
-              obs.get("outcome") == "ok" and obs.get("outputs") == ref, what="C17 replay")
+    ref = {k: norm(sched.canon(v)) for k, v in sched.reference_outputs(g).items()}
+    got = obs.get("outputs")
+    ctx.judge(c, {"outcome": obs.get("outcome"), "outputs": out_tags(got, g)}, None,
+              obs.get("outcome") == "ok" and got is not None and {k: norm(v) for k, v in got.items()} == ref, what="C17 replay")
